@@ -3,6 +3,12 @@ The EMITTER regenerated from the source (Generated/BocEmitSrc.lean: `Cell.serial
 pytoniq_core/boc/cell.py and `Boc.__init__` of deserialize.py, regenerated on every run by harness/translate/bocemit.py) equals
 the hand model (Model/BocEmit.lean, Model/BocForms.lean) for ALL cell objects, dicts, option sets, iteration budgets and texts.
 Generation dependent; the generation-independent lemmas are in Proofs/SrcDict.lean.
+
+THIS FILE: everything that does NOT depend on the order in which `Cell.order` visits the references — `Cell.serialize`
+(`src_serialize_eq`), `Cell.to_boc` given what `Cell.order` returned (`to_boc_given`), distinct keys of the returned dict
+(`order_nodup`, any loop body), `Boc.__init__` (`src_boc_init_eq`).  The equality of `Cell.order` / `Cell.to_boc` with the hand
+model's traversal is in Proofs/SrcBocOrderEq.lean (`src_order_eq`, `src_toBoc_eq`); the order-independent validity of the
+regenerated `Cell.order` in Proofs/SrcOrderAny.lean.
 -/
 import TonVerif.Generated.BocEmitSrc
 import TonVerif.Proofs.SrcDict
@@ -157,135 +163,18 @@ theorem to_boc_given (fuel : Nat) (p : PCell) (hi hc hcb : Bool) (fl : Nat) (cel
       simp only [cumulative, repeat_zero, bocMagic]
       cases hi <;> cases hc <;> simp [Option.bind_assoc, Option.bind_map, Function.comp_def]
 
-/-! ### `Cell.order` -/
+/-! ### `Cell.order`: the keys of the returned dict are pairwise distinct (whatever the `while` loop does) -/
 
 /-- the loop state `(post_order, stack, visited)` (the loop-carried variables, sorted by name) -/
 abbrev OState := List PCell × List (PCell × Bool) × Py.KSet PCell
 
-/-- one iteration of `while stack:` in canonical form -/
-def orderStep (s : OState) : Option OState :=
-  (Py.listPop? s.2.1).bind fun x =>
-    if x.2.2 = true then some (s.1 ++ [x.2.1], x.1, s.2.2)
-    else if Py.setHas PCell.key s.2.2 x.2.1 = true then some (s.1, x.1, s.2.2)
-    else some (s.1, x.1 ++ [(x.2.1, true)] ++ x.2.1.refs.map (fun r => (r, false)), Py.setAdd PCell.key s.2.2 x.2.1)
-
-/-- the `while stack:` loop = the hand model's `orderLoop` (same iteration budget): the Python list `stack` is the model's stack
-reversed, `post_order` the model's `post` reversed, `visited` the model's hash set -/
-theorem while_orderLoop (body : OState → Option OState) (hb : ∀ s, body s = orderStep s) :
-    ∀ (fuel : Nat) (po : List PCell) (stack : List (PCell × Bool)) (vis : Py.KSet PCell) (hs : Std.HashSet Nat),
-      SetSim PCell.key vis hs →
-      ((Py.while? (fun s : OState => decide (s.2.1 ≠ [])) body fuel (po, stack, vis)).map fun s => s.1.reverse) =
-        orderLoop fuel stack.reverse hs po.reverse
-  | 0, _, _, _, _, _ => by simp [Py.while?, orderLoop]
-  | fuel + 1, po, stack, vis, hs, h => by
-    rcases List.eq_nil_or_concat stack with rfl | ⟨init, ⟨c, e⟩, hst⟩
-    · simp [Py.while?, orderLoop]
-    · rw [List.concat_eq_append] at hst
-      subst hst
-      have hne : (init ++ [(c, e)] ≠ []) := by simp
-      simp only [Py.while?, hne, decide_true, if_true, ne_eq, not_false_eq_true, hb, orderStep, listPop_append,
-        Option.bind_some, List.reverse_append, List.reverse_cons, List.reverse_nil, List.nil_append, List.singleton_append]
-      cases e with
-      | true =>
-        simp only [if_true, Option.bind_some, orderLoop]
-        rw [while_orderLoop body hb fuel _ _ _ _ h]; simp
-      | false =>
-        simp only [Bool.false_eq_true, if_false, setSim_has h, orderLoop]
-        by_cases hc : hs.contains c.key = true
-        · simp only [hc, if_true, Option.bind_some]
-          rw [while_orderLoop body hb fuel _ _ _ _ h]
-        · simp only [hc, if_false, Option.bind_some, Bool.false_eq_true]
-          rw [while_orderLoop body hb fuel _ _ _ _ (setSim_add h c)]
-          simp [List.map_reverse]
-
-/-- the result dict of the re-insertion loop vs the model's `(keys latest first, key set)` -/
-def DSim (d : Py.KDict PCell Unit) (cd : CDict) : Prop :=
-  d.map (·.1) = cd.1.reverse ∧ ∀ k, cd.2.contains k = d.any (fun e => PCell.key e.1 == k)
-
-theorem filter_fst (c : PCell) (d : Py.KDict PCell Unit) : (d.filter (fun e => PCell.key e.1 != PCell.key c)).map (·.1) =
-    (d.map (·.1)).filter (fun x => PCell.key x != PCell.key c) := by
-  induction d with
-  | nil => rfl
-  | cons e d ih => by_cases he : PCell.key e.1 = PCell.key c <;> simp [he, ih]
-
-theorem dsim_step (d : Py.KDict PCell Unit) (cd : CDict) (c : PCell) (h : DSim d cd) :
-    DSim (moveToEnd PCell.key d c ()) (dictMoveToEnd cd c) := by
-  obtain ⟨h1, h2⟩ := h
-  have hfilter := filter_fst c d
-  unfold dictMoveToEnd moveToEnd
-  by_cases hc : cd.2.contains c.key = true
-  · rw [if_pos hc]
-    refine ⟨?_, ?_⟩
-    · simp only [List.map_append, hfilter, h1, List.map_cons, List.map_nil, List.reverse_cons, List.filter_reverse]
-    · intro k
-      simp only [List.any_append, List.any_cons, List.any_nil, Bool.or_false]
-      by_cases hk : PCell.key c = k
-      · subst hk; simp [hc]
-      · rw [h2 k]
-        have : (PCell.key c == k) = false := by simpa using hk
-        rw [this, Bool.or_false, List.any_filter]
-        congr 1; funext e
-        by_cases he : PCell.key e.1 = k
-        · have h3 : ¬ k = PCell.key c := fun h => hk h.symm
-          simp [he, h3]
-        · simp [he]
-  · rw [if_neg hc]
-    have hc' : Py.dictHas PCell.key d c = false := by
-      have := h2 c.key
-      simp only [Bool.not_eq_true] at hc
-      rw [hc] at this
-      exact this.symm
-    rw [filter_absent PCell.key d c hc']
-    refine ⟨by simp [h1], ?_⟩
-    intro k
-    rw [Std.HashSet.contains_insert, h2 k]
-    simp [List.any_append, Bool.or_comm]
-
-theorem dsim_foldl : ∀ (xs : List PCell) (d : Py.KDict PCell Unit) (cd : CDict), DSim d cd →
-    DSim (xs.foldl (fun d c => moveToEnd PCell.key d c ()) d) (xs.foldl dictMoveToEnd cd)
-  | [], _, _, h => h
-  | x :: xs, d, cd, h => dsim_foldl xs _ _ (dsim_step d cd x h)
-
-theorem dictOf_keys (d : Py.KDict PCell Unit) : dictOf (d.map (·.1)) = d := by
-  induction d with
-  | nil => rfl
-  | cons e d ih =>
-    simp only [dictOf, List.map_cons] at ih ⊢
-    rw [ih]
-
-/-- the two loops of `Cell.order` with canonical bodies = the hand model (generation independent) -/
-theorem order_shape (body : OState → Option OState) (step : Py.KDict PCell Unit → PCell → Option (Py.KDict PCell Unit))
-    (hb : ∀ s, body s = orderStep s) (hs : ∀ d c, step d c = moveStep PCell.key () d c) (fuel : Nat) (p : PCell) :
-    ((Py.while? (fun s : OState => decide (s.2.1 ≠ [])) body fuel ([], [(p, false)], [])).bind fun x =>
-      (List.foldlM step [] x.1.reverse).bind fun r => some r) = (p.order fuel).map dictOf := by
-  have hw := while_orderLoop body hb fuel [] [(p, false)] [] ∅ (setSim_empty _)
-  simp only [List.reverse_cons, List.reverse_nil, List.nil_append] at hw
-  have hstep : step = moveStep PCell.key () := by funext d c; exact hs d c
-  unfold PCell.order
-  rw [← hw, hstep]
-  cases Py.while? (fun s : OState => decide (s.2.1 ≠ [])) body fuel ([], [(p, false)], []) with
-  | none => rfl
-  | some s =>
-    simp only [Option.bind_some, Option.map_some, foldlM_moveStep, Option.bind_eq_bind, Option.pure_def]
-    have hd := dsim_foldl s.1.reverse [] ([], ∅) ⟨rfl, by intro k; simp⟩
-    rw [← hd.1, dictOf_keys]
-
-/-- **`Cell.order` regenerated = the hand model**, for every cell object and every iteration budget: same decision to return
-(also "budget exhausted"), and the returned dict has exactly the model's key list, in iteration order. -/
-theorem src_order_eq (fuel : Nat) (p : PCell) : order fuel p [] = (p.order fuel).map dictOf := by
-  unfold order
-  simp only [foldlM_append]
-  refine order_shape _ _ ?hb ?hs fuel p
-  case hb => intro s; rfl
-  case hs => intro d c; rfl
-
-theorem order_shape_nodup (body : OState → Option OState) (step : Py.KDict PCell Unit → PCell → Option (Py.KDict PCell Unit))
+theorem order_shape_nodup (cond : OState → Bool) (body : OState → Option OState) (step : Py.KDict PCell Unit → PCell → Option (Py.KDict PCell Unit))
     (hs : ∀ d c, step d c = moveStep PCell.key () d c) (fuel : Nat) (p : PCell) (d : Py.KDict PCell Unit)
-    (h : ((Py.while? (fun s : OState => decide (s.2.1 ≠ [])) body fuel ([], [(p, false)], [])).bind fun x =>
+    (h : ((Py.while? cond body fuel ([], [(p, false)], [])).bind fun x =>
       (List.foldlM step [] x.1.reverse).bind fun r => some r) = some d) : NodupKeys PCell.key d := by
   have hstep : step = moveStep PCell.key () := by funext d c; exact hs d c
   rw [hstep] at h
-  cases hW : Py.while? (fun s : OState => decide (s.2.1 ≠ [])) body fuel ([], [(p, false)], []) with
+  cases hW : Py.while? cond body fuel ([], [(p, false)], []) with
   | none => rw [hW] at h; cases h
   | some s =>
     rw [hW] at h
@@ -298,30 +187,8 @@ cell object, without any assumption on the hash function -/
 theorem order_nodup (fuel : Nat) (p : PCell) (d : Py.KDict PCell Unit) (h : order fuel p [] = some d) : NodupKeys PCell.key d := by
   unfold order at h
   simp only [foldlM_append] at h
-  refine order_shape_nodup _ _ ?hs fuel p d h
+  refine order_shape_nodup _ _ _ ?hs fuel p d h
   case hs => intro d c; rfl
-
-/-! ### `Cell.to_boc` -/
-
-/-- **`Cell.to_boc` regenerated = the hand model** `PCell.toBoc`, for every cell object (any DAG behind it), every option set
-(also invalid ones: cache bits without index, `flags ≠ 0`) and every iteration budget: same bytes, same decision to raise. -/
-theorem src_toBoc_eq (fuel : Nat) (p : PCell) (o : Opts) :
-    to_boc fuel p o.hasIdx o.hasCrc o.hasCache o.flags = p.toBoc fuel o := by
-  unfold PCell.toBoc
-  cases hm : p.order fuel with
-  | none =>
-    have h := src_order_eq fuel p
-    rw [hm] at h
-    unfold to_boc
-    simp [h]
-  | some cells =>
-    have h := src_order_eq fuel p
-    rw [hm] at h
-    have hnd := order_nodup fuel p _ h
-    have hnd' : (cells.map PCell.key).Nodup := by
-      simpa [NodupKeys, dictOf, Function.comp_def] using hnd
-    rw [to_boc_given fuel p _ _ _ _ cells h hnd']
-    rfl
 
 /-! ### `Boc.__init__` -/
 
